@@ -28,6 +28,11 @@ def isnan(x):
     return x != x
 
 
+def unset(x):
+    """Attributes of a Rebalancing that Broker.rebalance has not filled yet."""
+    return x is Ellipsis or x is None
+
+
 def is_pow2(x):
     if x <= 0:
         return False
@@ -602,7 +607,7 @@ class AcctSim(object):
             err = e
         except Exception as e:
             err = e
-        credited = r.profit_on_idle_cash if r.profit_on_idle_cash is not Ellipsis else 0.0
+        credited = r.profit_on_idle_cash if not unset(r.profit_on_idle_cash) else 0.0
         if isinstance(credited, float) or isinstance(credited, int):
             L.interest += F(float(credited))
         self.stats["rebalances"] += 1
@@ -612,7 +617,7 @@ class AcctSim(object):
             nlv_pre_model = None
         else:
             nlv_pre_model = L.nlv()
-            ref_nlv = r.context_pre.nlv if r.context_pre is not Ellipsis else float(nlv_pre_model)
+            ref_nlv = r.context_pre.nlv if not unset(r.context_pre) else float(nlv_pre_model)
             must_fail, either, plan, reasons = self.predict_rebalance(targets, measure, fractional, thr, ref_nlv)
         rec = {"targets": targets, "measure": measure, "fractional": fractional, "margin": thr,
                "err": type(err).__name__ if err else None}
